@@ -24,8 +24,8 @@ class Deriv:
         if not isinstance(t, z3.ExprRef): return z3.RealVal(0)
         k = t.get_id()
         r = s.cache.get(k)
-        if r is not None: return r
-        r = s._d(t); s.cache[k] = r; return r
+        if r is not None: return r[1]
+        r = s._d(t); s.cache[k] = (t, r); return r            # keep t alive: z3 recycles ast ids
     def _d(s, t):
         if z3.is_rational_value(t) or z3.is_int_value(t) or z3.is_algebraic_value(t): return z3.RealVal(0)
         if z3.is_const(t): return s.dv.get(t.get_id(), z3.RealVal(0))
